@@ -1170,6 +1170,7 @@ Definition overlay_render (t b : sem) (p : ovp) (self_pack : size -> bool -> res
                       end
                end in
   let* top_c := m_render t tsize f in
+  if (cc top_c =? 0) || (cr top_c =? 0) then Ok bottom_c else       (* f9cf74e: an empty top canvas covers nothing *)
   let* top1 := (if (lft <? 0) || (rgt <? 0) then pad_trim_lr top_c (Z.min 0 lft) (Z.min 0 rgt) else Ok top_c) in
   let* top2 := (if (top <? 0) || (bottom <? 0) then pad_trim_tb top1 (Z.min 0 top) (Z.min 0 bottom) else Ok top1) in
   canvas_overlay top2 bottom_c (Z.max lft 0) top.
